@@ -46,6 +46,12 @@ def _probe_flags(inp, tinp, zinp, lon, lat, p):
     ts = _canon_time(tinp)
     zs, los, las = _canon_vals(zinp), _canon_vals(lon), _canon_vals(lat)
     out = []
+    n = len(xs)
+    # an axis of another length than the data (e.g. an empty placeholder) is tolerated: it enters as a constant
+    ts = ts if ts is None or len(ts) == n else [23 * NS] * n
+    zs = zs if zs is None or len(zs) == n else ["29"] * n
+    los = los if los is None or len(los) == n else ["31"] * n
+    las = las if las is None or len(las) == n else ["37"] * n
     for i, x in enumerate(xs):
         k = _k(None if x is None else F(x))
         kp = 3 if i == 0 else _k(None if xs[i - 1] is None else F(xs[i - 1]))
@@ -691,6 +697,31 @@ def gen_orphan_cases(tier, rng):
     return out
 
 
+def gen_axis_stream_cases(tier, rng):
+    """tables whose depth / position COLUMN is itself a configured stream (QC of the axis), PandasStream: the column is
+    then both data and axis"""
+    import copy
+    out = []
+    for c in gen_stream("quick", rng, frontends=("pandas",), wforms=False):
+        axes = [ax for ax in ("z", "lat", "lon") if c[ax] is not None]
+        if not axes or c.get("axis_names") or c["n"] < 1:
+            continue
+        d = copy.deepcopy(c)
+        d["axis_streams"] = True
+        for ctx in d["cfg"]:
+            ax = rng.choice(axes)
+            pos = rng.randint(0, len(ctx["entries"]))
+            ctx["entries"].insert(pos, {"kind": "call", "stream": ax, "test": rng.choice(["probe_test", "probe_needs_z"]),
+                                        "p": rng.randint(0, 4), "fault": 0})
+            order = []
+            for e in ctx["entries"]:
+                if e["stream"] not in order:
+                    order.append(e["stream"])
+            ctx["entries"] = [e for s_ in order for e in ctx["entries"] if e["stream"] == s_]
+        out.append(d)
+    return out if tier != "quick" else rng.sample(out, min(len(out), 100))
+
+
 def gen_nat_cases(tier, rng):
     """tables in which some records have no time stamp (NaT), on the front ends that take plain arrays / tables
     (an xarray time coordinate must be sorted, hence complete)"""
@@ -729,6 +760,11 @@ def collected_rows_failures(case):
     n = case["n"]
     names = [nm for nm, _ in case["cols"]]
     cols = dict((nm, v) for nm, v in case["cols"])
+    if case.get("axis_streams"):          # an axis column (depth, position) is itself quality-controlled
+        for ax in ("z", "lat", "lon"):
+            if case[ax] is not None:
+                names.append(ax)
+                cols[ax] = case[ax]
     want = {}
     for c in grouped_cfg(case["cfg"]):
         if case["time"] is None:
